@@ -1,6 +1,445 @@
-//! c16 — stub, to be implemented
-use crate::report::Report;
+//! C16 — rectangle algebra is exact.
+//!
+//! Oracle: a rectangle is the product of two half-open intervals; for small coordinates each axis is
+//! a u64 bit set (bit i set <=> column/row i covered) and `pixels(a ∩ b)` must equal
+//! `pixels(a) & pixels(b)` per axis; for rectangles up to u32::MAX the same is done with interval
+//! arithmetic in u64. The real `Rect::intersect`, `Rect::is_empty` and `Rect::sub_offset` are run on
+//! every pair / rectangle and compared; panics (arithmetic overflow inside the stated precondition)
+//! are caught and reported.
+use crate::json::J;
+use crate::prng::{mix64, Rng};
+use crate::report::{par_run, Failure, Report};
 use crate::Ctx;
-pub fn run(_ctx: &Ctx) -> Report {
-    Report::new()
+use epd_waveshare::rect::Rect;
+use std::panic::{catch_unwind, AssertUnwindSafe};
+
+fn h64(v: &[u64]) -> u64 {
+    let mut h = 0xC16u64;
+    for &x in v {
+        h = mix64(h ^ x.wrapping_mul(0x9E3779B97F4A7C15));
+    }
+    h
+}
+
+fn panic_msg(p: Box<dyn std::any::Any + Send>) -> String {
+    if let Some(s) = p.downcast_ref::<&str>() {
+        s.to_string()
+    } else if let Some(s) = p.downcast_ref::<String>() {
+        s.clone()
+    } else {
+        "<non-string panic payload>".to_string()
+    }
+}
+
+fn rj(r: &Rect) -> J {
+    J::obj().set("x", r.x).set("y", r.y).set("w", r.w).set("h", r.h)
+}
+fn rs(r: &Rect) -> String {
+    format!("Rect(x={}, y={}, w={}, h={})", r.x, r.y, r.w, r.h)
+}
+
+/// relation of two half-open intervals [a0,a1) and [b0,b1), coarse, symmetric
+fn axis_rel(a0: u64, a1: u64, b0: u64, b1: u64) -> &'static str {
+    if a0 == a1 || b0 == b1 {
+        "empty-operand"
+    } else if a1 < b0 || b1 < a0 {
+        "disjoint"
+    } else if a1 == b0 || b1 == a0 {
+        "touch"
+    } else if a0 == b0 && a1 == b1 {
+        "equal"
+    } else if (a0 <= b0 && b1 <= a1) || (b0 <= a0 && a1 <= b1) {
+        "contain"
+    } else {
+        "overlap"
+    }
+}
+
+fn rel_tags(a: &Rect, b: &Rect) -> Vec<String> {
+    let x = axis_rel(a.x as u64, a.x as u64 + a.w as u64, b.x as u64, b.x as u64 + b.w as u64);
+    let y = axis_rel(a.y as u64, a.y as u64 + a.h as u64, b.y as u64, b.y as u64 + b.h as u64);
+    vec![format!("x:{}", x), format!("y:{}", y)]
+}
+
+fn fail_pair(rep: &mut Report, class: &str, rule: &str, a: &Rect, b: &Rect, detail: String, scale: &str) {
+    let mut tags = vec![rule.to_string()];
+    tags.extend(rel_tags(a, b));
+    tags.push(scale.to_string());
+    rep.fail(Failure {
+        panel: "Rect".into(),
+        entry: "intersect".into(),
+        class: class.into(),
+        tags,
+        detail,
+        case: J::obj().set("a", rj(a)).set("b", rj(b)),
+    });
+}
+
+/// interval model shared by both scales: ((lo_x, hi_x), (lo_y, hi_y)) of the true intersection, None if empty
+fn model(a: &Rect, b: &Rect) -> Option<(u64, u64, u64, u64)> {
+    let lx = (a.x as u64).max(b.x as u64);
+    let hx = (a.x as u64 + a.w as u64).min(b.x as u64 + b.w as u64);
+    let ly = (a.y as u64).max(b.y as u64);
+    let hy = (a.y as u64 + a.h as u64).min(b.y as u64 + b.h as u64);
+    if lx < hx && ly < hy {
+        Some((lx, hx, ly, hy))
+    } else {
+        None
+    }
+}
+
+/// all rules for one ordered pair given the two real results; returns true when the intersection is non-empty
+fn check_pair(rep: &mut Report, a: &Rect, b: &Rect, r: &Rect, r2: &Rect, r_empty: bool, scale: &str, bitsets: bool) -> bool {
+    let m = model(a, b);
+    let geo_empty = r.w == 0 || r.h == 0; // pixel set of the returned rectangle
+    match m {
+        Some((lx, hx, ly, hy)) => {
+            let ok = !geo_empty && r.x as u64 == lx && r.y as u64 == ly && r.x as u64 + r.w as u64 == hx && r.y as u64 + r.h as u64 == hy;
+            if !ok {
+                fail_pair(
+                    rep,
+                    "pixel-set",
+                    "pixels-differ",
+                    a,
+                    b,
+                    format!("{}.intersect({}) = {} but the common pixels are x in [{},{}) and y in [{},{})", rs(a), rs(b), rs(r), lx, hx, ly, hy),
+                    scale,
+                );
+            }
+        }
+        None => {
+            if !geo_empty {
+                fail_pair(rep, "pixel-set", "pixels-differ", a, b, format!("{}.intersect({}) = {} covers pixels although the operands share none", rs(a), rs(b), rs(r)), scale);
+            }
+        }
+    }
+    if bitsets {
+        // independent second formulation for small coordinates: per-axis bit sets
+        let ms = |o: u32, n: u32| -> u64 { (if n >= 64 { u64::MAX } else { (1u64 << n) - 1 }) << o };
+        let (ax, ay, bx, by) = (ms(a.x, a.w), ms(a.y, a.h), ms(b.x, b.w), ms(b.y, b.h));
+        let (rx, ry) = (ms(r.x, r.w), ms(r.y, r.h));
+        let (ex, ey) = (ax & bx, ay & by);
+        let want_empty = ex == 0 || ey == 0;
+        let got_empty = rx == 0 || ry == 0;
+        if want_empty != got_empty || (!want_empty && (rx != ex || ry != ey)) {
+            fail_pair(
+                rep,
+                "pixel-set",
+                "bitset-differs",
+                a,
+                b,
+                format!("{}.intersect({}) = {}: column set {:#x} / row set {:#x}, expected {:#x} / {:#x}", rs(a), rs(b), rs(r), rx, ry, ex, ey),
+                scale,
+            );
+        }
+        // inside both operands
+        if !got_empty && ((rx & !ax) != 0 || (rx & !bx) != 0 || (ry & !ay) != 0 || (ry & !by) != 0) {
+            fail_pair(rep, "pixel-set", "not-inside-operands", a, b, format!("{}.intersect({}) = {} has pixels outside an operand", rs(a), rs(b), rs(r)), scale);
+        }
+    } else if !geo_empty {
+        let inside = |o: &Rect| r.x >= o.x && r.y >= o.y && r.x as u64 + r.w as u64 <= o.x as u64 + o.w as u64 && r.y as u64 + r.h as u64 <= o.y as u64 + o.h as u64;
+        if !inside(a) || !inside(b) {
+            fail_pair(rep, "pixel-set", "not-inside-operands", a, b, format!("{}.intersect({}) = {} has pixels outside an operand", rs(a), rs(b), rs(r)), scale);
+        }
+    }
+    if r_empty != geo_empty {
+        fail_pair(rep, "pixel-set", "is_empty", a, b, format!("{}.is_empty() = {} but its pixel set is {}", rs(r), r_empty, if geo_empty { "empty" } else { "not empty" }), scale);
+    }
+    // commutativity: as pixel sets always, as structs when non-empty
+    let geo2_empty = r2.w == 0 || r2.h == 0;
+    if geo_empty != geo2_empty || (!geo_empty && r != r2) {
+        fail_pair(rep, "not-commutative", "a∩b≠b∩a", a, b, format!("a.intersect(b) = {} but b.intersect(a) = {} for a = {}, b = {}", rs(r), rs(r2), rs(a), rs(b)), scale);
+    }
+    m.is_some()
+}
+
+/// per-rectangle rules: idempotence and sub_offset
+fn check_single(rep: &mut Report, a: &Rect, offsets: &[(u32, u32)], scale: &str) {
+    let a_empty_geo = a.w == 0 || a.h == 0;
+    match catch_unwind(AssertUnwindSafe(|| (a.intersect(*a), a.is_empty()))) {
+        Err(p) => {
+            rep.count("panics_caught", 1);
+            fail_pair(rep, "pixel-set", "panic", a, a, format!("{}.intersect(self) panicked: {}", rs(a), panic_msg(p)), scale);
+        }
+        Ok((r, e)) => {
+            rep.count("idempotence_checks", 1);
+            let r_geo_empty = r.w == 0 || r.h == 0;
+            if (a_empty_geo && !r_geo_empty) || (!a_empty_geo && r != *a) {
+                fail_pair(rep, "pixel-set", "not-idempotent", a, a, format!("{}.intersect(self) = {}", rs(a), rs(&r)), scale);
+            }
+            if e != a_empty_geo {
+                fail_pair(rep, "pixel-set", "is_empty", a, a, format!("{}.is_empty() = {}", rs(a), e), scale);
+            }
+        }
+    }
+    for &(dx, dy) in offsets {
+        rep.count("sub_offset_checks", 1);
+        let mk = |rep: &mut Report, rule: &str, detail: String| {
+            rep.fail(Failure {
+                panel: "Rect".into(),
+                entry: "sub_offset".into(),
+                class: "sub-offset".into(),
+                tags: vec![
+                    rule.to_string(),
+                    if dx == a.x { "dx==x".into() } else if dx == 0 { "dx==0".into() } else { "0<dx<x".into() },
+                    if dy == a.y { "dy==y".into() } else if dy == 0 { "dy==0".into() } else { "0<dy<y".into() },
+                    scale.to_string(),
+                ],
+                detail,
+                case: J::obj().set("a", rj(a)).set("dx", dx).set("dy", dy),
+            });
+        };
+        match catch_unwind(AssertUnwindSafe(|| a.sub_offset(dx, dy))) {
+            Err(p) => {
+                rep.count("panics_caught", 1);
+                mk(rep, "panic", format!("{}.sub_offset({}, {}) panicked: {}", rs(a), dx, dy, panic_msg(p)));
+            }
+            Ok(r) => {
+                if r.w != a.w || r.h != a.h {
+                    mk(rep, "size-changed", format!("{}.sub_offset({}, {}) = {}", rs(a), dx, dy, rs(&r)));
+                }
+                if r.x as u64 + dx as u64 != a.x as u64 || r.y as u64 + dy as u64 != a.y as u64 {
+                    mk(rep, "origin", format!("{}.sub_offset({}, {}) = {}, expected origin ({}, {})", rs(a), dx, dy, rs(&r), a.x - dx, a.y - dy));
+                }
+            }
+        }
+    }
+}
+
+/// exhaustive small scale: `a` fixed, `b` over all rectangles with coordinates and sizes in 0..=n
+fn small_case(rep: &mut Report, a: Rect, n: u32) {
+    let scale = "small";
+    let mut pairs = 0u64;
+    let mut nonempty = 0u64;
+    // fast path: the whole inner loop under one catch_unwind; on a panic fall back to per-pair guards
+    let fast = catch_unwind(AssertUnwindSafe(|| {
+        let mut local = Report::new();
+        let (mut p, mut ne) = (0u64, 0u64);
+        for bx in 0..=n {
+            for by in 0..=n {
+                for bw in 0..=n {
+                    for bh in 0..=n {
+                        let b = Rect::new(bx, by, bw, bh);
+                        let r = a.intersect(b);
+                        let r2 = b.intersect(a);
+                        let e = r.is_empty();
+                        p += 1;
+                        if check_pair(&mut local, &a, &b, &r, &r2, e, scale, true) {
+                            ne += 1;
+                        }
+                    }
+                }
+            }
+        }
+        (local, p, ne)
+    }));
+    match fast {
+        Ok((local, p, ne)) => {
+            rep.merge(local);
+            pairs = p;
+            nonempty = ne;
+        }
+        Err(_) => {
+            for bx in 0..=n {
+                for by in 0..=n {
+                    for bw in 0..=n {
+                        for bh in 0..=n {
+                            let b = Rect::new(bx, by, bw, bh);
+                            pairs += 1;
+                            match catch_unwind(AssertUnwindSafe(|| {
+                                let r = a.intersect(b);
+                                (r, b.intersect(a), r.is_empty())
+                            })) {
+                                Err(p) => {
+                                    rep.count("panics_caught", 1);
+                                    fail_pair(rep, "pixel-set", "panic", &a, &b, format!("{}.intersect({}) (or the commuted call) panicked: {}", rs(&a), rs(&b), panic_msg(p)), scale);
+                                }
+                                Ok((r, r2, e)) => {
+                                    if check_pair(rep, &a, &b, &r, &r2, e, scale, true) {
+                                        nonempty += 1;
+                                    }
+                                }
+                            }
+                        }
+                    }
+                }
+            }
+        }
+    }
+    // idempotence and every admissible offset
+    let mut offs = Vec::new();
+    for dx in 0..=a.x {
+        for dy in 0..=a.y {
+            offs.push((dx, dy));
+        }
+    }
+    check_single(rep, &a, &offs, scale);
+    let evals = pairs + 1 + offs.len() as u64;
+    rep.evaluations += evals;
+    *rep.per_panel.entry("Rect".into()).or_insert(0) += evals;
+    rep.count("pairs_checked", pairs);
+    rep.count("pairs_with_nonempty_intersection", nonempty);
+    rep.count("nontrivial_items", nonempty);
+    if nonempty > 0 {
+        rep.nontrivial(h64(&[1, a.x as u64, a.y as u64, a.w as u64, a.h as u64]));
+    }
+    if a == Rect::new(2, 1, 3, 3) {
+        let b = Rect::new(4, 0, 3, 2);
+        if let Ok(r) = catch_unwind(AssertUnwindSafe(|| a.intersect(b))) {
+            rep.sample(J::obj().set("a", rj(&a)).set("b", rj(&b)).set("a.intersect(b)", rj(&r)).set("model_common_pixels", format!("{:?}", model(&a, &b))));
+        }
+        let b = Rect::new(5, 1, 2, 2);
+        if let Ok(r) = catch_unwind(AssertUnwindSafe(|| a.intersect(b))) {
+            rep.sample(J::obj().set("a", rj(&a)).set("b", rj(&b)).set("a.intersect(b)", rj(&r)).set("is_empty", r.is_empty()).set("model_common_pixels", format!("{:?}", model(&a, &b))));
+        }
+    }
+}
+
+/// one axis of a large rectangle respecting origin + size <= u32::MAX
+fn big_axis(rng: &mut Rng) -> (u32, u32) {
+    let max = u32::MAX as u64;
+    match rng.below(6) {
+        0 => {
+            let o = rng.below(max + 1);
+            (o as u32, rng.below(max - o + 1) as u32)
+        }
+        1 => {
+            // far edge exactly at u32::MAX
+            let o = rng.below(max + 1);
+            (o as u32, (max - o) as u32)
+        }
+        2 => {
+            // small size near the top of the range
+            let s = rng.below(64);
+            let o = max - s - rng.below(64).min(max - s);
+            (o as u32, s as u32)
+        }
+        3 => (rng.below(1 << 16) as u32, rng.below(1 << 16) as u32),
+        4 => (0, rng.below(max + 1) as u32),
+        _ => {
+            let o = rng.below(max + 1);
+            (o as u32, rng.below((max - o).min(4096) + 1) as u32)
+        }
+    }
+}
+
+/// second operand derived from the first so that touching / contained / overlapping cases are frequent
+fn near_axis(rng: &mut Rng, o: u32, s: u32) -> (u32, u32) {
+    let max = u32::MAX as u64;
+    let (o, s) = (o as u64, s as u64);
+    let anchors = [o, o + s, o + s / 2, o.saturating_sub(1), (o + s + 1).min(max)];
+    let jitter = rng.below(5) as i64 - 2;
+    let st = (*rng.pick(&anchors) as i64 + jitter).clamp(0, max as i64) as u64;
+    let en_anchor = *rng.pick(&anchors) as i64 + (rng.below(5) as i64 - 2);
+    let en = (en_anchor.clamp(0, max as i64) as u64).max(st);
+    let en = if rng.chance(1, 4) { (st + rng.below(max - st + 1)).min(max) } else { en };
+    (st as u32, (en - st) as u32)
+}
+
+fn large_case(rep: &mut Report, seed: u64, chunk: u64, n: u64) {
+    let scale = "large";
+    let mut rng = Rng::derive(seed, 0xC16_0000 + chunk);
+    let mut nonempty = 0u64;
+    let mut evals = 0u64;
+    for i in 0..n {
+        let (ax, aw) = big_axis(&mut rng);
+        let (ay, ah) = big_axis(&mut rng);
+        let a = Rect::new(ax, ay, aw, ah);
+        let (bx, bw) = if rng.chance(2, 3) { near_axis(&mut rng, ax, aw) } else { big_axis(&mut rng) };
+        let (by, bh) = if rng.chance(2, 3) { near_axis(&mut rng, ay, ah) } else { big_axis(&mut rng) };
+        let b = Rect::new(bx, by, bw, bh);
+        evals += 1;
+        match catch_unwind(AssertUnwindSafe(|| {
+            let r = a.intersect(b);
+            (r, b.intersect(a), r.is_empty())
+        })) {
+            Err(p) => {
+                rep.count("panics_caught", 1);
+                fail_pair(rep, "pixel-set", "panic", &a, &b, format!("{}.intersect({}) (or the commuted call) panicked: {}", rs(&a), rs(&b), panic_msg(p)), scale);
+            }
+            Ok((r, r2, e)) => {
+                if check_pair(rep, &a, &b, &r, &r2, e, scale, false) {
+                    nonempty += 1;
+                }
+                if chunk == 0 && i < 2 {
+                    rep.sample(J::obj().set("a", rj(&a)).set("b", rj(&b)).set("a.intersect(b)", rj(&r)).set("model_common_pixels", format!("{:?}", model(&a, &b))));
+                }
+            }
+        }
+        if i % 4 == 0 {
+            let dx = match rng.below(3) {
+                0 => a.x,
+                1 => 0,
+                _ => rng.below(a.x as u64 + 1) as u32,
+            };
+            let dy = match rng.below(3) {
+                0 => a.y,
+                1 => 0,
+                _ => rng.below(a.y as u64 + 1) as u32,
+            };
+            check_single(rep, &a, &[(dx, dy)], scale);
+            evals += 2;
+        }
+    }
+    rep.evaluations += evals;
+    *rep.per_panel.entry("Rect".into()).or_insert(0) += evals;
+    rep.count("pairs_checked", n);
+    rep.count("large_pairs_checked", n);
+    rep.count("large_pairs_with_nonempty_intersection", nonempty);
+    rep.count("pairs_with_nonempty_intersection", nonempty);
+    rep.count("nontrivial_items", nonempty);
+    if nonempty > 0 {
+        rep.nontrivial(h64(&[2, seed, chunk]));
+    }
+}
+
+enum Case {
+    Small(Rect),
+    Large(u64, u64),
+}
+
+pub fn run(ctx: &Ctx) -> Report {
+    let miri = ctx.mode == "miri";
+    let n: u32 = if miri {
+        3
+    } else if ctx.tier_thorough {
+        12
+    } else {
+        6
+    };
+    let mut cases = Vec::new();
+    for x in 0..=n {
+        for y in 0..=n {
+            for w in 0..=n {
+                for h in 0..=n {
+                    cases.push(Case::Small(Rect::new(x, y, w, h)));
+                }
+            }
+        }
+    }
+    let (chunks, per) = if miri {
+        (1u64, 200u64)
+    } else if ctx.tier_thorough {
+        (1000, 10_000)
+    } else {
+        (100, 2_000)
+    };
+    for c in 0..chunks {
+        cases.push(Case::Large(c, per));
+    }
+    let threads = if miri { 1 } else { ctx.threads };
+    let seed = ctx.seed;
+    let mut rep = par_run(&cases, threads, |_i, c, rep| match c {
+        Case::Small(a) => small_case(rep, *a, n),
+        Case::Large(c, per) => large_case(rep, seed, *c, *per),
+    });
+    rep.count("small_rectangles", ((n + 1) as u64).pow(4));
+    rep.note(&format!(
+        "small scale: all ordered pairs of rectangles with x,y,w,h in 0..={} (bit-set oracle and interval oracle); large scale: {} seeded pairs up to u32::MAX with x+w and y+h representable (interval oracle in u64), second operand derived from the first in 2/3 of the draws so that touching / contained / overlapping configurations are frequent",
+        n,
+        chunks * per
+    ));
+    rep.note("distinct_nontrivial hashes one entry per first operand (small) or per seeded chunk (large) that had at least one non-empty intersection; the exact number of pairs with a non-empty intersection is counters.nontrivial_items");
+    rep.note("evaluation = one ordered pair (a∩b and b∩a computed by the real code and compared with the model), one idempotence check, or one sub_offset call");
+    rep
 }
